@@ -148,8 +148,47 @@ for mix in mixes:
                 prob.append(f'ValueError {e} although {len(want)} channels are in the common band')
         if prob:
             wit.append({'key': f'{mix}:{trial}', 'problems': prob[:3]})
+# ---- 3. user spectrum partitions: every carrier of the document is launched once, overlapping partitions are rejected
+from gnpy.tools.json_io import _spectrum_from_json
+from gnpy.core.info import carriers_to_spectral_information
+from gnpy.core.exceptions import SpectrumError
+for w1, w2 in itertools.product((50e9, 75e9, 37.5e9), repeat=2):
+    for k1 in (1, 4):
+        f1 = 193.0e12
+        last1 = f1 + (k1 - 1) * w1
+        # start of the second partition relative to the edge where the two slots just touch
+        touch = last1 + w1 / 2 + w2 / 2
+        for label, f2 in (('gap', touch + 12.5e9), ('touching', touch), ('overlapping by 6.25 GHz', touch - 6.25e9),
+                          ('second starts on the last carrier of the first', last1), ('half a slot before the edge', touch - w2 / 2)):
+            for listed_reversed in (False, True):
+                cases += 1
+                nontriv += 1
+                parts = [{'f_min': f1, 'f_max': last1, 'baud_rate': 28e9, 'slot_width': w1, 'roll_off': 0.15, 'tx_osnr': 40},
+                         {'f_min': f2, 'f_max': f2 + 2 * w2, 'baud_rate': 30e9, 'slot_width': w2, 'roll_off': 0.15, 'tx_osnr': 38}]
+                if listed_reversed:
+                    parts.reverse()
+                want_freqs = [f1 + i * w1 for i in range(k1)] + [f2 + i * w2 for i in range(3)]
+                overlap = f2 - w2 / 2 < last1 + w1 / 2 - 1.0
+                prob = []
+                try:
+                    sp = _spectrum_from_json(deepcopy(parts))
+                    si = carriers_to_spectral_information(initial_spectrum=sp, power=1e-3)
+                    if overlap:
+                        prob.append(f'accepted although the slot of {last1 * 1e-12:.5f} THz ({w1 * 1e-9} GHz) and the slot of {f2 * 1e-12:.5f} THz '
+                                    f'({w2 * 1e-9} GHz) overlap: {len(sp)} carriers for {len(want_freqs)} in the document')
+                    elif not np.allclose(sorted(sp), want_freqs, rtol=0, atol=1.0) or not np.allclose(si.frequency, want_freqs, rtol=0, atol=1.0):
+                        prob.append(f'launched {sorted(sp)} instead of {want_freqs}')
+                    elif [c.slot_width for _, c in sorted(sp.items())] != [w1] * k1 + [w2] * 3:
+                        prob.append('carriers do not keep the slot width of their partition')
+                except (ValueError, SpectrumError) as e:
+                    if not overlap:
+                        prob.append(f'rejected although no slots overlap: {type(e).__name__} {str(e)[:120]}')
+                if prob:
+                    wit.append({'key': f'user-spectrum:{w1 * 1e-9}/{w2 * 1e-9} GHz:{k1} carriers:{label}:{"reversed" if listed_reversed else "in order"}',
+                                'problems': prob})
 finish('common band = intersection; out-of-band channels removed once, the others kept once in order with their data through single / multi-band amplifiers',
        'bounded', 'gnpy.core.utils.find_common_range, gnpy.topology.request.filter_si / find_elements_common_range, gnpy.core.elements.Multiband_amplifier.__call__',
        f'{n1} random amplifier band sets on a 9-point frequency grid; 6 amplifier mixes from eqpt_config_multiband.json (multi-band, C-band, mixed, two in a row) '
-       'x spectra with channels just inside / outside / straddling every band edge, in the gap and inside, supplied in shuffled order', cases, wit,
+       'x spectra with channels just inside / outside / straddling every band edge, in the gap and inside, supplied in shuffled order; user spectra of two '
+       'partitions (3 x 3 slot widths, 1 or 4 carriers, gap / touching / overlapping / same carrier, listed in both orders)', cases, wit,
        nontrivial=nontriv, t0=t0)
